@@ -135,7 +135,9 @@ class Gen:
             s, pool = strings.pick_string(rng, self.hostile, False, False) if self.hostile else (rng.choice(
                 ("", "a", "b", "ab", "abc", "x", "Hello", "%1", "é", "z", "A", "0", " ", "\U0001F600", "\ufffd", "\U00010000", "a b",
                  # escape followed by a character that could be absorbed into it by a C++ compiler
-                 "\x011", "\x0012", "\x1f7z", "\n0", "\t7", "\x7f1", "7", "12", "\x01", "\x00", "\x1bf", "\x0cA", "é9", "\u200bB")), "plain")
+                 "\x011", "\x0012", "\x1f7z", "\n0", "\t7", "\x7f1", "7", "12", "\x01", "\x00", "\x1bf", "\x0cA", "é9", "\u200bB",
+                 # beyond the BMP and not printable: tag characters, variation selectors, private-use planes, the last code point
+                 "\U000E0067\U000E0062", "\U0001F3F4\U000E0067\U000E007F", "\U000E0100x", "\U000F0000", "a\U0010FFFFb", "\U0001D173")), "plain")
             return N("lit", STR, v=(s, strings.js_literal(rng, s)), const=True)
         if t == MODE:
             return N("enum", MODE, v=rng.choice(MODES), const=True)
@@ -631,6 +633,25 @@ class Gen:
                 self.locals[-1]["v%d" % self.nlocal] = (BOOL, True)
                 return N("prog", t, (stmts + self.tail(t, "block", 0),))
             return N("prog", t, (stmts + [N("return", t, (res,))],))
+        if kind == "switch-fallthrough-let":
+            # a variable re-declared in one clause of a switch and READ IN A LATER CLAUSE that is reached by falling through:
+            # the later clause denotes the switch-level variable, the code after the switch the outer one
+            name = self.fresh()
+            outer = N("let", VOID, (self.expr(t, 2),), v=(name, t, False, False))     # (its initialiser cannot read the name)
+            self.locals[-1][name] = (t, False)
+            subject = N("bin", INT, (N("prop", INT, (self.obj_expr(self.max_depth),), v=rng.choice(VF_PROPS[INT])), N("lit", INT, v=(2, "2"), const=True)), v="%")
+            self.hidden.add(name)
+            inner_init = self.expr(t, 2)
+            self.hidden.discard(name)
+            loc = N("local", t, v=name)
+            c1 = [N("let", VOID, (inner_init,), v=(name, t, False, False))]
+            if rng.random() < 0.4:
+                c1.append(N("exprstmt", t, (self.lit(t),)))
+            c2 = [N("return", t, (loc,))]
+            labels = [N("lit", INT, v=(0, "0"), const=True), N("lit", INT, v=(1, "1"), const=True)]
+            dpos = rng.choice((None, 2, 0))
+            bodies = [c1, c2] if dpos is None else ([c1, c2, [N("break", VOID)]] if dpos == 2 else [[N("break", VOID)], c1, c2])
+            return N("prog", t, ([outer, N("switch", VOID, (subject, labels, dpos, bodies)), N("return", t, (loc,))],))
         if kind == "list-build":
             # a list-valued local starts as a CONSTANT list and receives a non-constant element by subscript assignment; the
             # result depends on that element only (everything else in the program is constant)
@@ -1617,6 +1638,12 @@ class Interp:
                     return None
                 start = dpos
             self.scopes.append({})
+            # names declared directly in a clause belong to the switch body as a whole: entering at a later clause, they exist
+            # but have not been assigned (reading one is undefined)
+            for body in bodies:
+                for st in body:
+                    if st.k == "let":
+                        self.scopes[-1][st.v[0]] = _UNSET
             try:
                 for i in range(start, len(bodies)):
                     r = self.run(bodies[i])
